@@ -259,3 +259,155 @@ def vm_crosscheck(lines, expected, workdir=None):
         if val != str(expected.get(cid)):
             bad.append((cid, val, expected.get(cid)))
     return bad, out
+
+
+# ----------------------------------------------------------------------------- generic kernel-VM cross-check of runner results
+
+_BINOP = {"add": "BAdd", "sub": "BSub", "mul": "BMul", "div": "BDiv", "rem": "BRem", "max": "BMax", "min": "BMin"}
+_CMPOP = {"eq": "CEq", "ne": "CNe", "lt": "CLt", "le": "CLe", "gt": "CGt", "ge": "CGe"}
+_UNOP = {"neg": "UNeg", "abs": "UAbs", "signum": "USignum", "recip": "URecip", "sqrt": "USqrt"}
+_RND = {"floor": "RFloor", "ceil": "RCeil", "round": "RRound", "trunc": "RTrunc", "fract": "RFract"}
+
+
+def _tok(s):
+    return re.findall(r"\(|\)|[^\s()]+", s)
+
+
+def _parse(toks, i=0):
+    if toks[i] == "(":
+        out = []
+        i += 1
+        while toks[i] != ")":
+            e, i = _parse(toks, i)
+            out.append(e)
+        return out, i + 1
+    return toks[i], i + 1
+
+
+def _z(a):
+    n = int(a)
+    return f"({n})" if n < 0 else str(n)
+
+
+def _cexpr(e):
+    k = e[0]
+    if k == "L":
+        return f"(ELit {_z(e[1])} {_z(e[2])})"
+    if k == "M":
+        return f"(EMul {_cexpr(e[1])} {_cexpr(e[2])})"
+    if k == "D":
+        return f"(EDiv {_cexpr(e[1])} {_cexpr(e[2])})"
+    if k == "N":
+        return f"(ENeg {_cexpr(e[1])})"
+    raise ValueError(e)
+
+
+def _cexprs(es):
+    return "[" + "; ".join(_cexpr(e) for e in es) + "]"
+
+
+def _zs(zs):
+    return "[" + "; ".join(_z(z) for z in zs) + "]"
+
+
+def _const(c):
+    return "None" if c == "-" else f"(Some {_cexpr(c)})"
+
+
+def _b(x):
+    return "true" if x in ("1", "true") else "false"
+
+
+def coq_request(cls, r):
+    """sexp request (parsed) -> Gallina term of type req Z / req Q; None if the form is not supported here."""
+    val = (lambda v: _z(v)) if cls != "q" else (lambda v: f"(Qmake {_z(v[0])} {int(v[1])})")
+    k = r[0]
+    if k in ("new", "get"):
+        return f"({'RNew' if k == 'new' else 'RGet'} {_cexprs(r[1])} {_zs(r[2])} {_cexpr(r[3])} {_const(r[4])} {val(r[5])})"
+    if k == "rebase":
+        return f"(RRebase {_b(r[1])} {_cexprs(r[2])} {_cexprs(r[3])} {_zs(r[4])} {val(r[5])})"
+    if k == "bin":
+        return f"(RBin {_b(r[1])} {_BINOP[r[2]]} {_cexprs(r[3])} {_cexprs(r[4])} {_zs(r[5])} {val(r[6])} {val(r[7])})"
+    if k == "cmp":
+        return f"(RCmp {_b(r[1])} {_CMPOP[r[2]]} {_cexprs(r[3])} {_cexprs(r[4])} {_zs(r[5])} {val(r[6])} {val(r[7])})"
+    if k == "pcmp":
+        return f"(RPcmp {_b(r[1])} {_cexprs(r[2])} {_cexprs(r[3])} {_zs(r[4])} {val(r[5])} {val(r[6])})"
+    if k == "muladd":
+        return f"(RMulAdd {_b(r[1])} {_cexprs(r[2])} {_cexprs(r[3])} {_cexprs(r[4])} {_zs(r[5])} {_zs(r[6])} {val(r[7])} {val(r[8])} {val(r[9])})"
+    if k == "round":
+        return f"(RRoundTo {_RND[r[1]]} {_cexprs(r[2])} {_zs(r[3])} {_cexpr(r[4])} {_const(r[5])} {val(r[6])})"
+    if k == "coef":
+        return f"(RCoef {_cexpr(r[1])})"
+    if k == "hist":
+        ops = []
+        for h in r[5]:
+            if h[0] == "bin":
+                ops.append(f"HRBin {_BINOP[h[1]]} {_cexprs(h[2])} {val(h[3])}")
+            elif h[0] == "same":
+                ops.append(f"HRSame {_BINOP[h[1]]} {val(h[2])}")
+            else:
+                ops.append(f"HRUn {_UNOP[h[1]]}")
+        return f"(RHist {_b(r[1])} {_cexprs(r[2])} {_zs(r[3])} {val(r[4])} [{'; '.join(ops)}])"
+    if k == "todur":
+        return f"(RToDur {_b(r[1])} {_cexprs(r[2])} {_zs(r[3])} {_cexpr(r[4])} {_cexpr(r[5])} {val(r[6])})"
+    if k == "fromdur":
+        return f"(RFromDur {_b(r[1])} {_cexprs(r[2])} {_zs(r[3])} {_cexpr(r[4])} {_cexpr(r[5])} {_z(r[6])} {_z(r[7])})"
+    return None
+
+
+def vm_sample_check(lines, results, rng, n=40, workdir=None):
+    """Re-evaluate a seed-drawn sample of runner request lines with `Eval vm_compute` in coqc and compare with the
+    extracted runner's answers.  Returns (checked, [mismatching ids], error text or None)."""
+    cand = []
+    for l in lines:
+        sp = l.split(" ", 3)
+        if len(sp) == 4 and sp[1] in ("f64", "f32", "q", "z") and sp[0] in results:
+            cand.append(sp)
+    if not cand:
+        return 0, [], None
+    sample = rng.sample(cand, min(n, len(cand)))
+    workdir = C.ensure_dir(workdir or os.path.join(C.BUILD, "vmcheck"))
+    src = ["From Coq Require Import ZArith QArith List String.",
+           "From UomV Require Import Model.Tables Model.Conv Model.FloatM Model.FloatOps Model.Exact Model.Quantity Model.Storages Model.Duration Model.Run.",
+           "Import ListNotations. Open Scope Z_scope."]
+    used = []
+    for cid, cls, lib, req in sample:
+        try:
+            parsed, _ = _parse(_tok(req))
+            term = coq_request(cls, parsed)
+        except (ValueError, KeyError, IndexError):
+            term = None
+        if term is None:
+            continue
+        fn = {"f64": f"run64 {'LibStd' if lib == 'std' else 'LibCore'}", "f32": f"run32 {'LibStd' if lib == 'std' else 'LibCore'}", "q": "q_run", "z": "z_run"}[cls]
+        src.append(f'Goal True. idtac "@@ {cid}". exact I. Qed.')
+        if cls == "q":
+            src.append(f"Eval vm_compute in (map (fun q => (Qnum q, Zpos (Qden q))) ({fn} {term})).")
+        else:
+            src.append(f"Eval vm_compute in ({fn} {term}).")
+        used.append((cid, cls))
+    with open(os.path.join(workdir, "sample.v"), "w") as f:
+        f.write("\n".join(src) + "\n")
+    rc, out = C.sh(["coqc", "-noglob", "-Q", os.path.join(C.COQ, "theories"), "UomV", "sample.v"], cwd=workdir, timeout=1200)
+    if rc != 0:
+        return 0, [], out[-1500:]
+    got = {}
+    for ch in out.split("@@ ")[1:]:
+        cid, _, body = ch.partition("\n")
+        m = re.search(r"=\s*\[(.*?)\]\s*:", body.replace("\n", " "), re.S)
+        got[cid.strip()] = m.group(1) if m else None
+    bad = []
+    for cid, cls in used:
+        g = got.get(cid)
+        want = results[cid].strip()
+        if g is None:
+            bad.append(cid)
+            continue
+        if cls == "q":
+            pairs = re.findall(r"\(\s*\(?(-?\d+)\)?%?Z?\s*,\s*(\d+)%?Z?\s*\)", g.replace("%Z", ""))
+            gs = " ".join(f"{n}/{d}" for n, d in pairs)
+        else:
+            gs = " ".join(x.strip().replace("%Z", "").replace("(", "").replace(")", "") for x in g.split(";") if x.strip())
+        if gs != want:
+            bad.append(cid)
+    return len(used), bad, None
